@@ -20,3 +20,11 @@ package newrelic
 //@ func (*Client).processMetrics
 //@   trusted
 //@   modifies everything
+
+// post (C16): the retry loop ends when the back-off policy says the retry window is over (NextBackOff returned
+// backoff.Stop, -1): no further wait and no further attempt follows such an answer, so the flush request's
+// completion cannot be postponed for ever by a server that keeps refusing.
+//@ func (*Client).post
+//@   floats real
+//@   callsite NewTimer requires lastresult(NextBackOff, 0) != -1
+//@   modifies everything
